@@ -8,9 +8,10 @@
    absorption probability of the count chain equals that of every chain lumping onto it, through any
    number of epochs, and propagators of a generator have row sums one (proofs/ExpLaws.v, restated
    in props/C01.v).
-   Not proved (needs positivity of exp of a matrix with non-negative off-diagonal entries, i.e. an
-   order-theoretic law of the backend): cdf non-decreasing and within [0,1], cdf -> 1; pdf = derivative.
-   These are checked on the implementation by the cdf stream. *)
+   (4) with the real matrix exponential (analysis/MExp.v, analysis/CdfFacts.v; end of this file): the
+   model's cdf function takes values in [0,1], is non-decreasing in t, equals 1 - alpha T(t) e, is
+   pointwise, and transfers along lumpings - for every backend denoting the real exponential.
+   Not proved: cdf -> 1; pdf = derivative.  These are checked on the implementation by the cdf stream. *)
 From Coq Require Import QArith Qabs List.
 From PG Require Import base.Perm model.Loop proofs.LoopProofs model.Search proofs.SearchProofs.
 Import ListNotations.
@@ -93,3 +94,153 @@ Theorem C03_absorption_probability_transfers_real :
     = (aL *m P) *m epoch_prodC (fun n : nat => @mexp n) eps *m eC.
 Proof. by move=> *; apply: real_lumping_product_cdf. Qed.
 Print Assumptions C03_absorption_probability_transfers_real.
+
+(* ------------------------------------------------------------------------------------------------
+   The MODEL's cdf function (model/PhaseType.v [cdf], the Gallina transcription of
+   PhaseTypeDistribution.cdf / TreeHeightDistribution.cdf: loop over the epochs of a piecewise-constant
+   demography, one call of the matrix-exponential backend per epoch traversed, vectorised over the
+   times), run over the real numbers (analysis/CdfFacts.v).
+
+   The backend is a parameter [expm] of the model.  Its contract is: on a well-formed n x n list
+   matrix it returns a well-formed n x n list matrix denoting the real matrix exponential [mexp] of
+   analysis/MExp.v.  The contract is satisfiable: [expm_ideal] (tabulate mexp) meets it
+   ([expm_ideal_sound]), so that every statement below is given first WITHOUT any hypothesis on the
+   backend (instantiated at expm_ideal), and then for EVERY backend meeting the contract
+   (suffix _any_sound_backend).
+
+   Data hypotheses, all stated on the model's lists: [is_generator n S] - S is an n x n list matrix
+   with non-negative off-diagonal entries and zero row sums; [is_prob n alpha] - alpha is a
+   probability vector; [is_01 n e] - e is a 0/1 vector of size n (the indicator of the
+   non-absorbed states); [abs_closed n S e] - no rate from a state with e = 0 to a state with e = 1;
+   [epochs_wf _ 0 Ss] - the epoch start times are increasing from 0.
+
+   C03_model_cdf_values_are_probabilities   every value returned by cdf is in [0,1]
+                                            ("Not proved" in the header of this file is superseded).
+   C03_model_cdf_monotone                   t1 <= t2 -> cdf(t1) <= cdf(t2), any demography.
+   C03_model_cdf_denotes_absorption_probability
+                                            cdf(t) = 1 - alpha T(t) e where T(t) = [TM n Ss Slast t] is
+                                            the ordered product over the epochs traversed up to t of
+                                            mexp (duration *: generator): the probability of being
+                                            absorbed by time t of the time-inhomogeneous chain.
+   C03_model_cdf_pointwise                  the vectorised cdf is the map of the single-time cdf, for
+                                            any order of the times and with repeats.
+   C03_model_cdf_lumping                    if P intertwines the generators of a fine chain (L) and a
+                                            coarse chain (C) in every epoch, the cdf of L with
+                                            absorption indicator P e equals the cdf of C started from
+                                            alpha P with indicator e - as lists, at all times. *)
+From PG Require Import base.Ops base.OpsR model.Matrix model.PhaseType analysis.Denote analysis.CdfFacts.
+Delimit Scope Q_scope with QQ.
+
+Theorem C03_model_cdf_values_are_probabilities :
+  forall (n : nat) (Ss : seq (Q * seq (seq R))) (Slast : seq (seq R)) (alpha e : seq R) (ts : seq Q),
+    List.Forall (fun x : Q * seq (seq R) => is_generator n x.2) Ss -> is_generator n Slast ->
+    is_prob n alpha -> is_01 n e ->
+    epochs_wf (seq (seq R)) 0%QQ Ss -> List.Forall (fun t => (0 <= t)%QQ) ts ->
+    List.Forall (fun x : R => Rle R0 x /\ Rle x R1) (cdf OpsR expm_ideal Ss Slast alpha e ts).
+Proof. exact: (cdf_range expm_ideal_sound). Qed.
+Print Assumptions C03_model_cdf_values_are_probabilities.
+
+Theorem C03_model_cdf_values_are_probabilities_any_sound_backend :
+  forall expm : seq (seq R) -> seq (seq R),
+    (forall n A, wf n n A -> wf n n (expm A) /\ mx_of n n (expm A) = mexp (mx_of n n A)) ->
+  forall (n : nat) (Ss : seq (Q * seq (seq R))) (Slast : seq (seq R)) (alpha e : seq R) (ts : seq Q),
+    List.Forall (fun x : Q * seq (seq R) => is_generator n x.2) Ss -> is_generator n Slast ->
+    is_prob n alpha -> is_01 n e ->
+    epochs_wf (seq (seq R)) 0%QQ Ss -> List.Forall (fun t => (0 <= t)%QQ) ts ->
+    List.Forall (fun x : R => Rle R0 x /\ Rle x R1) (cdf OpsR expm Ss Slast alpha e ts).
+Proof. exact: cdf_range. Qed.
+Print Assumptions C03_model_cdf_values_are_probabilities_any_sound_backend.
+
+Theorem C03_model_cdf_monotone :
+  forall (n : nat) (Ss : seq (Q * seq (seq R))) (Slast : seq (seq R)) (alpha e : seq R) (t1 t2 : Q),
+    List.Forall (fun x : Q * seq (seq R) => is_generator n x.2 /\ abs_closed n x.2 e) Ss ->
+    is_generator n Slast -> abs_closed n Slast e ->
+    is_prob n alpha -> is_01 n e ->
+    epochs_wf (seq (seq R)) 0%QQ Ss -> (0 <= t1)%QQ -> (t1 <= t2)%QQ ->
+    Rle (List.nth 0 (cdf OpsR expm_ideal Ss Slast alpha e [:: t1]) 0)
+        (List.nth 0 (cdf OpsR expm_ideal Ss Slast alpha e [:: t2]) 0).
+Proof. exact: (cdf_monotone expm_ideal_sound). Qed.
+Print Assumptions C03_model_cdf_monotone.
+
+Theorem C03_model_cdf_monotone_any_sound_backend :
+  forall expm : seq (seq R) -> seq (seq R),
+    (forall n A, wf n n A -> wf n n (expm A) /\ mx_of n n (expm A) = mexp (mx_of n n A)) ->
+  forall (n : nat) (Ss : seq (Q * seq (seq R))) (Slast : seq (seq R)) (alpha e : seq R) (t1 t2 : Q),
+    List.Forall (fun x : Q * seq (seq R) => is_generator n x.2 /\ abs_closed n x.2 e) Ss ->
+    is_generator n Slast -> abs_closed n Slast e ->
+    is_prob n alpha -> is_01 n e ->
+    epochs_wf (seq (seq R)) 0%QQ Ss -> (0 <= t1)%QQ -> (t1 <= t2)%QQ ->
+    Rle (List.nth 0 (cdf OpsR expm Ss Slast alpha e [:: t1]) 0)
+        (List.nth 0 (cdf OpsR expm Ss Slast alpha e [:: t2]) 0).
+Proof. exact: cdf_monotone. Qed.
+Print Assumptions C03_model_cdf_monotone_any_sound_backend.
+
+Theorem C03_model_cdf_denotes_absorption_probability :
+  forall (n : nat) (Ss : seq (Q * seq (seq R))) (Slast : seq (seq R)) (alpha e : seq R) (ts : seq Q),
+    all_wf n Ss -> wf n n Slast -> size e = n ->
+    epochs_wf (seq (seq R)) 0%QQ Ss -> List.Forall (fun t => (0 <= t)%QQ) ts ->
+    cdf OpsR expm_ideal Ss Slast alpha e ts =
+    List.map (fun t => 1 - (rv_of n alpha *m TM n Ss Slast t *m cv_of n e) ord0 ord0) ts.
+Proof. exact: (cdf_denote expm_ideal_sound). Qed.
+Print Assumptions C03_model_cdf_denotes_absorption_probability.
+
+Theorem C03_model_cdf_denotes_absorption_probability_any_sound_backend :
+  forall expm : seq (seq R) -> seq (seq R),
+    (forall n A, wf n n A -> wf n n (expm A) /\ mx_of n n (expm A) = mexp (mx_of n n A)) ->
+  forall (n : nat) (Ss : seq (Q * seq (seq R))) (Slast : seq (seq R)) (alpha e : seq R) (ts : seq Q),
+    all_wf n Ss -> wf n n Slast -> size e = n ->
+    epochs_wf (seq (seq R)) 0%QQ Ss -> List.Forall (fun t => (0 <= t)%QQ) ts ->
+    cdf OpsR expm Ss Slast alpha e ts =
+    List.map (fun t => 1 - (rv_of n alpha *m TM n Ss Slast t *m cv_of n e) ord0 ord0) ts.
+Proof. exact: cdf_denote. Qed.
+Print Assumptions C03_model_cdf_denotes_absorption_probability_any_sound_backend.
+
+Theorem C03_model_cdf_pointwise :
+  forall (n : nat) (Ss : seq (Q * seq (seq R))) (Slast : seq (seq R)) (alpha e : seq R) (ts : seq Q),
+    all_wf n Ss -> wf n n Slast -> size e = n ->
+    epochs_wf (seq (seq R)) 0%QQ Ss -> List.Forall (fun t => (0 <= t)%QQ) ts ->
+    cdf OpsR expm_ideal Ss Slast alpha e ts =
+    List.map (fun t => List.nth 0 (cdf OpsR expm_ideal Ss Slast alpha e [:: t]) 0) ts.
+Proof. exact: (cdf_pointwise expm_ideal_sound). Qed.
+Print Assumptions C03_model_cdf_pointwise.
+
+Theorem C03_model_cdf_pointwise_any_sound_backend :
+  forall expm : seq (seq R) -> seq (seq R),
+    (forall n A, wf n n A -> wf n n (expm A) /\ mx_of n n (expm A) = mexp (mx_of n n A)) ->
+  forall (n : nat) (Ss : seq (Q * seq (seq R))) (Slast : seq (seq R)) (alpha e : seq R) (ts : seq Q),
+    all_wf n Ss -> wf n n Slast -> size e = n ->
+    epochs_wf (seq (seq R)) 0%QQ Ss -> List.Forall (fun t => (0 <= t)%QQ) ts ->
+    cdf OpsR expm Ss Slast alpha e ts =
+    List.map (fun t => List.nth 0 (cdf OpsR expm Ss Slast alpha e [:: t]) 0) ts.
+Proof. exact: cdf_pointwise. Qed.
+Print Assumptions C03_model_cdf_pointwise_any_sound_backend.
+
+Theorem C03_model_cdf_lumping :
+  forall (m n : nat) (P : seq (seq R)) (SsL : seq (Q * seq (seq R))) (SlastL : seq (seq R))
+         (SsC : seq (Q * seq (seq R))) (SlastC : seq (seq R)) (alphaL eC : seq R) (ts : seq Q),
+    wf m n P -> wf m m SlastL -> wf n n SlastC ->
+    List.Forall2 (fun x y : Q * seq (seq R) =>
+                    [/\ x.1 = y.1, wf m m x.2, wf n n y.2 & mmul OpsR x.2 P = mmul OpsR P y.2])
+                 SsL SsC ->
+    mmul OpsR SlastL P = mmul OpsR P SlastC ->
+    size alphaL = m -> size eC = n ->
+    cdf OpsR expm_ideal SsL SlastL alphaL (mvec OpsR P eC) ts
+    = cdf OpsR expm_ideal SsC SlastC (vmat OpsR alphaL P) eC ts.
+Proof. exact: (cdf_lumping expm_ideal_sound). Qed.
+Print Assumptions C03_model_cdf_lumping.
+
+Theorem C03_model_cdf_lumping_any_sound_backend :
+  forall expm : seq (seq R) -> seq (seq R),
+    (forall n A, wf n n A -> wf n n (expm A) /\ mx_of n n (expm A) = mexp (mx_of n n A)) ->
+  forall (m n : nat) (P : seq (seq R)) (SsL : seq (Q * seq (seq R))) (SlastL : seq (seq R))
+         (SsC : seq (Q * seq (seq R))) (SlastC : seq (seq R)) (alphaL eC : seq R) (ts : seq Q),
+    wf m n P -> wf m m SlastL -> wf n n SlastC ->
+    List.Forall2 (fun x y : Q * seq (seq R) =>
+                    [/\ x.1 = y.1, wf m m x.2, wf n n y.2 & mmul OpsR x.2 P = mmul OpsR P y.2])
+                 SsL SsC ->
+    mmul OpsR SlastL P = mmul OpsR P SlastC ->
+    size alphaL = m -> size eC = n ->
+    cdf OpsR expm SsL SlastL alphaL (mvec OpsR P eC) ts
+    = cdf OpsR expm SsC SlastC (vmat OpsR alphaL P) eC ts.
+Proof. exact: cdf_lumping. Qed.
+Print Assumptions C03_model_cdf_lumping_any_sound_backend.
